@@ -150,6 +150,13 @@ def gen_type(rng, ix):
     if forced or forced_cmd:
         kind = "struct"
     t = {"name": "T%d" % ix, "kind": kind, "doc": rng.choice(DOCS + [None])}
+    if rng.random() < 0.3:
+        # a doc comment of several blocks (description / header / footer, cut at double empty lines), with explicit
+        # descr(..) / header(..) / footer(..) annotations naming some of the parts
+        t["doc"] = rng.choice(["Does things", "Does things\n\n\nHeader block", "Does things\n\n\nHeader block\n\n\nFooter block",
+                               "Does things\nsecond line\n\nstill the description\n\n\nHeader block\n\n\nFooter one\n\n\nFooter two",
+                               "Does things\n\n\n\n\nFooter after an empty header"])
+        t["ann"] = {k: "explicit %s" % k for k in ("descr", "header", "footer") if rng.random() < 0.35}
     if kind == "struct":
         t["fields"] = gen_fields(rng, used, True, rng.choice([1, 2, 3, 4]), allow_pos=not forced_cmd)
         if not t["fields"]:
@@ -237,7 +244,55 @@ def rs_str(s):
 def doc_lines(doc, indent):
     if doc is None:
         return ""
-    return "".join("%s/// %s\n" % (indent, l) for l in doc.split("\n"))
+    return "".join(("%s/// %s\n" % (indent, l)) if l else ("%s///\n" % indent) for l in doc.split("\n"))
+
+
+def doc_blocks(doc):
+    """bpaf_derive's LineIter: a doc comment is cut into blocks at DOUBLE empty lines (a single empty line stays inside a
+    block); every block is trimmed at its end."""
+    out, cur, prev_empty = [], "", False
+    lines = doc.split("\n")
+    if lines and lines[-1] == "":
+        lines.pop()
+    for line in lines:
+        if line == "":
+            if prev_empty:
+                prev_empty = False
+                out.append(cur.rstrip())
+                cur = ""
+            else:
+                prev_empty = True
+        else:
+            if prev_empty:
+                cur += "\n"
+            cur += line + "\n"
+            prev_empty = False
+    if cur != "":
+        out.append(cur.rstrip())
+    return out
+
+
+def options_help(t):
+    """(descr, header, footer) of an `options` type: the first block of the doc comment is the description, the second
+    (when not empty) the header, the rest the footer; an explicit descr(..) / header(..) / footer(..) annotation
+    overrides exactly the part it names."""
+    ann = t.get("ann") or {}
+    blocks = doc_blocks(t["doc"]) if t["doc"] is not None else []
+    d = blocks[0] if blocks else None
+    h = blocks[1] if len(blocks) > 1 and blocks[1] != "" else None
+    rest = "\n".join(blocks[2:])
+    f = rest if rest != "" else None
+    return (ann.get("descr") or d, ann.get("header") or h, ann.get("footer") or f)
+
+
+def options_attr(t):
+    ann = t.get("ann") or {}
+    return "".join(", %s(%s)" % (k, rs_str(ann[k])) for k in ("descr", "header", "footer") if ann.get(k))
+
+
+def options_tail(t):
+    d, h, f = options_help(t)
+    return "".join(".%s(%s)" % (k, rs_str(v)) for k, v in (("descr", d), ("header", h), ("footer", f)) if v is not None)
 
 
 def field_attr(f):
@@ -396,7 +451,7 @@ class C17(Property):
     def write_crate(self, types):
         src = ["#![allow(non_snake_case, dead_code, unused_imports, clippy::all)]", "use bpaf::*;", ""]
         for t in types:
-            d = "#[derive(Debug, Clone, PartialEq, Bpaf)]\n#[bpaf(options)]\n" + doc_lines(t["doc"], "")
+            d = "#[derive(Debug, Clone, PartialEq, Bpaf)]\n#[bpaf(options%s)]\n" % options_attr(t) + doc_lines(t["doc"], "")
             if t["kind"] == "struct":
                 extra = ""
                 if "inner" in t:
@@ -475,7 +530,7 @@ class C17(Property):
                         h += "    let alt%d = %s;\n" % (vi, inner)
                     alts.append("alt%d" % vi)
                 body = "construct!([%s])" % ", ".join(alts)
-            h += "    %s.to_options()%s\n}\n" % (body, (".descr(%s)" % rs_str(t["doc"])) if t["doc"] is not None else "")
+            h += "    %s.to_options()%s\n}\n" % (body, options_tail(t))
             src.append(h)
         # dispatcher
         src.append(RUNNER_HEAD)
